@@ -1265,6 +1265,10 @@ func (x *Exec) pureApply(st *State, h map[string]Term, pf *pureFun, args []Val) 
 			r := x.freshVal(st, "purebytes", pf.rtypes[i])
 			st.assume(Eq(x.bytesOf(st, r), x.define(st, "pure", app)))
 			st.assume(Eq(App(SInt, "s.len", r.T), App(SInt, "bytes.len_", x.bytesOf(st, r))))
+			// the backing array is none of the caller's own allocations, past or future
+			rb := App(SInt, "rid", App(SRef, "s.base", r.T))
+			st.assume(Or(App(SBool, "<=", rb, IntLit(0)), App(SBool, ">=", rb, IntLit(1000000))))
+			x.sawRef(st, r)
 			res = append(res, r)
 			continue
 		}
